@@ -22,7 +22,8 @@ ASSUMPTIONS = [
     "'an error value' = any ExcelError instance",
     'booleans as text only where the result does not depend on the casing of '
     'their text form (LEN, UPPER, LOWER, LEFT(x,1))',
-    'UPPER/LOWER on an alphabet where Python case mapping is one-to-one',
+    'UPPER on an alphabet where Python case mapping is one-to-one; LOWER '
+    'also over letters whose lower case differs from their case folding',
 ]
 
 ALPHA = ['a', 'b', 'A', ' ', 'a', 'b', '"', "'", ',', '(', u'é', u'Ü', '1',
@@ -93,6 +94,13 @@ def _build(d, maxlen):
         args = [s]
         if d.chance(1, 10) and fn != 'TRIM':
             args = [bool(d.pick(2))]
+        if fn == 'LOWER' and d.chance(1, 4):
+            # letters whose lower case is NOT their case folding (LOWER
+            # leaves them alone; str.casefold would rewrite them)
+            args = [''.join(d.choice(['Stra', u'\xdf', 'e', u'\u03c2',
+                                      u'\u017f', u'\xb5', 'A', u'\xc9',
+                                      u'\ufb01', 'B'])
+                            for _ in range(d.int(1, 6)))]
         if fn == 'TRIM' and d.chance(1, 2):
             args = [' ' * d.pick(3) + 'a' + ' ' * d.pick(4) + 'b c' +
                     ' ' * d.pick(3)]
